@@ -17,7 +17,10 @@
 (***************************************************************************)
 EXTENDS Integers, FiniteSets
 
-CONSTANTS Node, Lsn, MaxNotify
+CONSTANTS Node, Lsn, MaxNotify,
+          AwaitDereg   \* Shutdown() waits for the upstream handlers to deregister before it goes on
+                       \* (FALSE: the behaviour of the pinned tree, finding D6 - the node could leave the
+                       \* cluster while still advertising upstreams)
 
 VARIABLES
   phase,   \* phase[n] : "up" | "notready" | "upclosed" | "proxyclosed" | "left" | "down" | "killed"
@@ -48,11 +51,12 @@ StopStep(n) ==
   /\ \/ /\ phase[n] = "up" /\ phase' = [phase EXCEPT ![n] = "notready"]
         /\ UNCHANGED <<conn, reg, view>>
      \/ /\ phase[n] = "notready" /\ phase' = [phase EXCEPT ![n] = "upclosed"]
-        \* every upstream session is closed and deregistered
+        \* the upstream handlers' context is cancelled: every session is closed; each handler
+        \* deregisters its upstream in its own time (Dereg)
         /\ conn' = [l \in Lsn |-> IF conn[l] = n THEN "none" ELSE conn[l]]
-        /\ reg' = [reg EXCEPT ![n] = {}]
-        /\ UNCHANGED view
+        /\ UNCHANGED <<reg, view>>
      \/ /\ phase[n] = "upclosed" /\ phase' = [phase EXCEPT ![n] = "proxyclosed"]
+        /\ (AwaitDereg => reg[n] = {})
         /\ UNCHANGED <<conn, reg, view>>
      \/ /\ phase[n] = "proxyclosed" /\ phase' = [phase EXCEPT ![n] = "left"]
         \* Leave(): the own state, now with the left marker, is pushed to up to MaxNotify gossiping peers
@@ -65,6 +69,12 @@ StopStep(n) ==
      \/ /\ phase[n] = "left" /\ phase' = [phase EXCEPT ![n] = "down"]
         /\ UNCHANGED <<conn, reg, view>>
   /\ UNCHANGED victim
+
+\* a handler whose session ended runs its deferred RemoveConn
+Dereg(n, l) ==
+  /\ l \in reg[n] /\ conn[l] # n /\ ~Dead(n)
+  /\ reg' = [reg EXCEPT ![n] = @ \ {l}]
+  /\ UNCHANGED <<phase, conn, view, victim>>
 
 \* the process dies (also in the middle of a shutdown)
 Kill(n) ==
@@ -104,13 +114,14 @@ Next ==
   \/ \E n \in Node : Lose(n) \/ StopStep(n) \/ Kill(n)
   \/ \E o, n \in Node : Gossip(o, n) \/ Detect(o, n)
   \/ \E o, m, n \in Node : Relay(o, m, n)
-  \/ \E l \in Lsn, n \in Node : Reconnect(l, n)
+  \/ \E l \in Lsn, n \in Node : Reconnect(l, n) \/ Dereg(n, l)
 
 Fairness ==
   /\ \A o, n \in Node : WF_vars(Gossip(o, n)) /\ WF_vars(Detect(o, n))
   /\ \A o, m, n \in Node : WF_vars(Relay(o, m, n))
   /\ \A l \in Lsn : WF_vars(\E n \in Node : Reconnect(l, n))
   /\ \A n \in Node : WF_vars(StopStep(n))
+  /\ \A n \in Node, l \in Lsn : WF_vars(Dereg(n, l))
   /\ WF_vars(\E n \in Node : Lose(n))
 Spec == Init /\ [][Next]_vars /\ Fairness
 
@@ -123,7 +134,7 @@ ServesFrom(o, l) ==
      /\ \A m \in Candidates(o, l) : ProxyOpen(m) /\ l \in reg[m]
 
 \* safety
-StoppedNodeAdvertisesNothing == \A n \in Node : phase[n] \in {"upclosed", "proxyclosed", "left", "down"} => reg[n] = {}
+StoppedNodeAdvertisesNothing == \A n \in Node : phase[n] \in {"proxyclosed", "left", "down"} => reg[n] = {}
 LeftViewsAreEmpty == \A o, n \in Node : (o # n /\ view[o][n].st = "left") => view[o][n].eps = {}
 NeverRouteToLeft == \A o \in Node, l \in Lsn : \A m \in Candidates(o, l) : view[o][m].st = "active"
 \* the nodes it notified stop routing to it at once (everyone, when there are at most MaxNotify peers)
